@@ -20,6 +20,10 @@ inductive GoType where
   | nullT (k : NullKind)
   | custom (id : Nat) (under : GoType)
   | iface | chan | func | unsafeptr
+  /-- back-reference to a named type that is being defined (self-referential types cannot be written
+  as finite trees); resolved through a type environment by `schemaForType` (SchemaGen.lean). For codec
+  construction it is an unsupported kind. -/
+  | ref (name : String)
 /-- `reflect.StructField`: name, IsExported, `Tag.Get("json")`, `Tag.Get("bq")`, type -/
 inductive GoField where
   | mk (name : String) (exported : Bool) (jsonTag bqTag : String) (type : GoType)
@@ -33,19 +37,28 @@ def GoField.jsonTag : GoField → String | .mk _ _ j _ _ => j
 def GoField.bqTag : GoField → String | .mk _ _ _ b _ => b
 def GoField.type : GoField → GoType | .mk _ _ _ _ t => t
 
+/-- the comma-separated parts of a struct tag value (what repeated `strings.Cut(s, ",")` yields),
+on character lists so that closed instances reduce in the kernel (`String.splitOn` does not) -/
+def splitCommas : List Char → List (List Char)
+  | [] => [[]]
+  | c :: cs =>
+    match splitCommas cs with
+    | [] => [[]]
+    | h :: t => if c == ',' then [] :: h :: t else (c :: h) :: t
+
 /-- `nameForField` (build.go:245) -/
 def nameForField (f : GoField) : String :=
   if !f.exported then "-"
   else if f.bqTag == "-" then "-"
   else
-    let name := (f.jsonTag.splitOn ",").headD ""
+    let name := String.ofList ((splitCommas f.jsonTag.toList).headD [])
     if name == "-" then "-"
     else if name == "" then f.name
     else name
 
 /-- `omitEmpty` (build.go:266) -/
 def omitEmptyTag (jsonTag : String) : Bool :=
-  ((jsonTag.splitOn ",").drop 1).any (· == "omitempty")
+  ((splitCommas jsonTag.toList).drop 1).any (· == "omitempty".toList)
 
 /-- the codec registry: the library's own registrations (time.Time, null.*) once
 `RegisterCodecs` ran, and user registrations as predicates "builder accepts this schema". -/
